@@ -1,6 +1,6 @@
 From Coq Require Extraction ExtrOcamlBasic.
-From Rpgp Require Import Base.Octets Base.Res Frame.Framing Aead.Seipd2 Sym.Cfb Armor.Armor Key.Lock Msg.Pipeline.
+From Rpgp Require Import Base.Octets Base.Res Frame.Framing Aead.Seipd2 Sym.Cfb Armor.Armor Key.Lock Msg.Pipeline Io.Emitter Frame.PartialWriter Msg.SignGen.
 Extraction Language OCaml.
 Separate Extraction Byte.to_N Byte.of_N
   Pipeline.read Pipeline.build Pipeline.literal_dec Pipeline.compressed_dec Pipeline.encrypted_dec Pipeline.armor_dec
-  Pipeline.res_of_option Seipd2.seipd2_dec Seipd2.derive Seipd2.info_of Seipd2.chunk_len Cfb.seipd1_dec Framing.deframe.
+  Pipeline.res_of_option Seipd2.seipd2_dec Seipd2.derive Seipd2.info_of Seipd2.chunk_len Cfb.seipd1_dec Framing.deframe SignGen.sg_run SignGen.sg_spec.
